@@ -5,7 +5,7 @@ generated tag lines (distinct package names, several line layouts, optional
 tag filter), ``insert`` of a fresh package, and the derivations
 ``filter_packages[_copy]``, ``filter_packages_tags[_copy]``,
 ``filter_tags[_copy]``, ``choose_packages[_copy]``, ``facet_collection``,
-``reverse``, ``reverse_copy``, ``copy``.  Two shapes:
+``reverse``, ``reverse_copy``, ``copy``.  Three shapes:
 
 * *chain* histories - each derivation replaces the current DB, the parent is
   dropped (aliasing between live relatives, which the sharing filter/choose
@@ -22,6 +22,23 @@ tag filter), ``insert`` of a fresh package, and the derivations
   dictionaries is empty when ``reverse()`` runs.  A ``read`` on one object, a
   ``drop`` or any derivation ends the pair; the chain continues from one of
   the two objects and a pair may be formed again.
+
+* *live derived-pair* histories - a derivation op carrying ``'live': true``:
+  ``child = parent.<derivation>(...)`` and BOTH stay alive (the chain
+  continues from the child, ``'on': 'other'`` addresses the one that is not
+  current).  Afterwards fresh packages are inserted into the parent and into
+  the child, under new tags and under tags both collections hold; each object
+  has its OWN reference relation (an insert into one changes only that one)
+  and after EVERY step both are judged - all query methods against their own
+  reference, K8 on both (K8.dpair).  Only for the derivations established on
+  the unchanged tree to build the child's tag->packages side afresh:
+  filter_packages[_copy], filter_packages_tags[_copy], filter_tags_copy,
+  choose_packages[_copy], facet_collection (LIVE_DERIVED).  The arguments
+  include the degenerate ones: predicates that keep EVERYTHING / NOTHING,
+  choices that name all packages (shuffled, repeated, with unknown names) or
+  none, an empty or tag-less parent.  filter_tags, copy and reverse_copy hand
+  the child the very package sets an insert into the parent adds to (observed
+  on the unchanged tree) - they stay chain-only; the flag is ignored on them.
 
 ``query`` steps call tags_of_package / has_package / packages_of_tag / has_tag
 / card on given names - mostly names that are ABSENT in the role asked about,
@@ -57,10 +74,15 @@ tag set of its package t (tags_of_package / iter_packages_tags); that image is
 accepted only if the object itself shows the mechanism for the same t and q.
 Anything else gets a key naming the disagreeing query and the operation kind
 (suffix ``/on-live-reverse-partner`` when it was seen on the object the
-operation was NOT applied to).  After the known mechanism the harness rebuilds
+operation was NOT applied to; ``/on-live-child-of-<derivation>`` /
+``/on-live-parent-of-<derivation>`` in a live derived pair, where nothing seen
+on the other object is ever explained by the known mechanism).  After the known mechanism the harness rebuilds
 the current DB from the reference relation (and, in a live pair, forms the
-pair again with reverse()) and continues the history, so it neither masks nor
-contaminates later steps; after any other violation the history ends.
+pair again with reverse(); in a live derived pair only the object showing the
+mechanism is replaced, the other stays as the library built it and the pair
+is counted as no longer genuine) and continues the history, so it neither
+masks nor contaminates later steps; after any other violation the history
+ends.
 """
 import io
 import zlib
@@ -75,8 +97,14 @@ RULE = ('Seeded histories of <= ~12 operations over debtags.DB: read of generate
         'collections (empty DB; packages without tags read from lines like "a", "b:"; a single package; tag keys without '
         'packages; everything filtered away), then inserts of fresh single- and multi-character names, reads and queries '
         'addressed to EITHER object, both objects judged after every step (the partner against the swapped relation, K8 on '
-        'both); a read, a drop or a derivation ends the pair and the chain continues from one object.  (3) query steps in '
-        'both shapes: tags_of_package / has_package / packages_of_tag / has_tag / card on names that are mostly absent '
+        'both); a read, a drop or a derivation ends the pair and the chain continues from one object.  (3) live derived-pair '
+        'histories: child = parent.<derivation>(...) with BOTH kept alive (op flag live) for filter_packages[_copy], '
+        'filter_packages_tags[_copy], filter_tags_copy, choose_packages[_copy], facet_collection - arguments that keep '
+        'EVERYTHING (true-like predicates, choices naming all packages), NOTHING, or some; general, empty and tag-less parents - '
+        'then fresh single- and multi-character packages inserted into the parent and into the child, under new tags and under '
+        'tags both collections hold, queries and reads addressed to either; each object is judged after every step against its '
+        'OWN reference relation, K8 on both; a further live derivation from either object forms the next pair.  (4) query steps in '
+        'all shapes: tags_of_package / has_package / packages_of_tag / has_tag / card on names that are mostly absent '
         '(including names a later insert uses); package_count, tag_count and the iter_* results are snapshotted before and '
         'after these calls and around the queries of every comparison, on every live object.  Package names of length 1 and '
         '2..12, tags with and without a "::" facet.  A history is non-trivial when it executed >= 3 operations of >= 2 '
@@ -90,10 +118,30 @@ ASSUMPTIONS = [
     'the property - it is learned from the library on a one-pair collection and only the consistency of the whole relation under that per-tag map is demanded',
     'domain guards: read input has distinct package names and no blank lines; inserted names are fresh '
     'w.r.t. the current packages and tags of every live object; choose_packages_copy is only given names that are present',
-    'live relatives: ONLY the pair db / db.reverse() is kept alive and mutated (reverse() is documented as sharing with the '
+    'live relatives, reverse: the pair db / db.reverse() is kept alive and mutated (reverse() is documented as sharing with the '
     'original and implemented as a view over both dictionaries; established on the unchanged tree: the pair stays consistent '
-    'in every sub-case driven, including pairs formed while one or both dictionaries are empty).  The results of the sharing '
-    'filter_* / choose_* variants are still never mutated next to a live parent (any derivation ends the pair)',
+    'in every sub-case driven, including pairs formed while one or both dictionaries are empty)',
+    'live relatives, other derivations: established on the unchanged tree (9000 probe pairs / up to 27000 inserts per derivation, arguments keeping '
+    'everything / nothing / some, inserts into parent and into child, under existing and new tags): parent and child stay '
+    'individually consistent - each equal to its own reference relation, K8 on each - for filter_packages, filter_packages_copy, '
+    'filter_packages_tags, filter_packages_tags_copy, filter_tags_copy, choose_packages, choose_packages_copy and '
+    'facet_collection.  These give the child a fresh tag->packages dictionary with fresh package sets; what the non-copy variants '
+    'share (the tag sets of existing packages) is never touched by an insert of a FRESH package.  Only these are kept alive next '
+    'to their parent (op flag live), and only inserts of fresh packages, queries and one closing read are applied to such a pair',
+    'chain-only derivations: filter_tags (documented: sharing package sets), copy and reverse_copy (their dictionaries are '
+    'shallow copies: the package sets under existing tags ARE the parent\'s, although the docstrings speak of copied tagsets). '
+    'On the unchanged tree an insert of a fresh package under an existing tag into the parent shows up in the child\'s '
+    'packages_of_tag but not in its tags_of_package (and the other way round).  This is aliasing between live relatives, which the '
+    'statement does not rule on; these results are never mutated next to a live parent and the live flag is ignored on them '
+    '(skipped_ops: live-flag-on-sharing-derivation-ignored)',
+    'a read() on one object of a live DERIVED pair must leave the other one unchanged (separate collections; no latitude as '
+    'for the reverse view) when the derivation is a *_copy variant or facet_collection; for filter_packages, '
+    'filter_packages_tags and choose_packages (documented: sharing tagsets with the parent) the other object is NOT judged at '
+    'that read and the history continues from the object read into; in every case the pair ends there.  The known insert defect in a derived pair: only the object inserted into (or '
+    'the facet_collection result itself) may show it; that object alone is replaced by a DB rebuilt from its reference, the other '
+    'stays untouched; inserts after such a rebuild are counted apart (dpair:insert-after-harness-rebuild) and do not feed the '
+    'dpair:insert* floors.  60% of the generated pair inserts cannot take the defect path (one-character names, or '
+    'multi-character names only under tags that already have packages)',
     'the view is judged against the swapped reference relation after inserts into either object.  A read() on one object '
     'of a live pair is the one step where the statement is silent about the OTHER object: it may keep the relation it had '
     '(the implementation as written - read rebinds both dictionaries) or show the swapped new relation (an in-place '
@@ -147,6 +195,19 @@ KNOWN_KEY = 'insert-new-tag-stores-name-characters'
 DERIVATIONS = ('reverse', 'reverse_copy', 'copy', 'facet_collection',
                'filter_packages', 'filter_packages_copy', 'filter_packages_tags', 'filter_packages_tags_copy',
                'filter_tags', 'filter_tags_copy', 'choose_packages', 'choose_packages_copy')
+
+# Derivations whose result may be kept alive NEXT TO its parent and both mutated by inserts of fresh packages
+# (pseudo-flag 'live': true on the derivation op).  Established on the unchanged tree (see ASSUMPTIONS): these build a
+# fresh tag->packages dictionary AND fresh package sets for the child - the only sets an insert of a fresh package adds
+# to - so parent and child stay individually consistent whatever is inserted into either of them afterwards.
+LIVE_DERIVED = ('filter_packages', 'filter_packages_copy', 'filter_packages_tags', 'filter_packages_tags_copy',
+                'filter_tags_copy', 'choose_packages', 'choose_packages_copy', 'facet_collection')
+# ... and those for which the unchanged tree itself hands the child the very package sets an insert into the parent
+# adds to (filter_tags: documented "sharing package sets"; copy / reverse_copy: shallow dict copies): chain-only.
+SHARING_DERIVED = ('filter_tags', 'copy', 'reverse_copy')
+# LIVE_DERIVED members documented as "sharing tagsets with this one": what a read() into one member may do to tag sets
+# the other still holds is left open - the other member is not judged at (or after) that read, the pair just ends.
+DOC_SHARING = ('filter_packages', 'filter_packages_tags', 'choose_packages')
 
 # ---------------------------------------------------------------------------
 # K8: contract at the hook
@@ -594,11 +655,23 @@ def run_case(ctx, case):
     partner = None              # a live DB obtained by reverse() from cur (or the DB cur was obtained from): the
     pclass = None               # pair is symmetric while linked, so `model.reversed()` is the partner's reference
     cur_is_view = False
+    # link: how the two live objects are related.  'view': partner is cur.reverse() (or cur is partner.reverse()) and its
+    # reference is always model.reversed().  'derived': one was obtained from the other by a LIVE_DERIVED derivation
+    # (op flag 'live'); from then on they are independent collections, the partner has its OWN reference `pown`.
+    link, pown, pkind, dclass = None, None, None, None
+    cur_is_child = False        # derived pair: cur is the derived collection (partner its parent) or the other way round
+    genuine = False             # derived pair: both objects are still the ones the library built (no harness rebuild)
     executed, kinds, many_to_many, derived = 0, set(), False, False
     pair_steps, pair_inserts = 0, 0
+    dpair_steps, dpair_inserts = 0, 0
 
     def prefix(i):
         return {'kind': 'hist', 'ops': ops[:i + 1]}
+
+    def psuffix():
+        if link == 'derived':
+            return '/on-live-%s-of-%s' % ('parent' if cur_is_child else 'child', pkind)
+        return PARTNER
 
     for i, op in enumerate(ops):
         kind = op['op']
@@ -607,14 +680,20 @@ def run_case(ctx, case):
         if partner is not None and op.get('on') == 'other':
             # the operation addresses the other object of the live pair: swap roles
             cur, partner = partner, cur
-            model = model.reversed()
-            cur_is_view = not cur_is_view
+            if link == 'derived':
+                model, pown = pown, model
+                cur_is_child = not cur_is_child
+            else:
+                model = model.reversed()
+                cur_is_view = not cur_is_view
         # ---- domain guards (also make arbitrary replay files safe) ----------
         if kind == 'insert':
             ins_pkg = op['pkg']
             names_now = set(model.pmax) | set(model.tmax) | set(cur.iter_packages()) | set(cur.iter_tags())
             if partner is not None:
                 names_now |= set(partner.iter_packages()) | set(partner.iter_tags())
+                if link == 'derived':
+                    names_now |= set(pown.pmax) | set(pown.tmax)
             if ins_pkg in names_now or not ins_pkg or ins_pkg in op['tags']:
                 _skip(ctx, 'insert-name-not-fresh')
                 continue
@@ -670,16 +749,18 @@ def run_case(ctx, case):
                     ctx.extra['histories_ended_early'] += 1
                     return
                 partner = nv
+                link, pown = 'view', None
                 cur_is_view = False
                 nxt, nmodel = cur, model
                 ctx.count('view-start:' + pclass)
             elif kind == 'drop':
                 partner = None
+                link, pown = None, None
                 nxt, nmodel = cur, model
             elif kind == 'query':
                 # queries (mostly on names that are absent) must not change what the counting / iterating
                 # methods report afterwards - on this object and on its live reverse partner
-                objs = [('', cur)] + ([(PARTNER, partner)] if partner is not None else [])
+                objs = [('', cur)] + ([(psuffix(), partner)] if partner is not None else [])
                 before = [snapshot(o) for _, o in objs]
                 pkeys, tkeys = set(before[0][2]), set(before[0][3])
                 fwd, inv = model.fwd(), model.inv()
@@ -705,7 +786,7 @@ def run_case(ctx, case):
                 after = [snapshot(o) for _, o in objs]
                 ctx.mon('M.query', len(objs))
                 if partner is not None:
-                    ctx.count('q:with-live-partner')
+                    ctx.count('q:with-live-partner' if link == 'view' else 'q:with-live-derived-partner')
                 diff = snap_diff(objs, before, after)
                 if diff is not None:
                     qfail = ('%s-changed-by-queries%s' % (diff[1], diff[0]),
@@ -762,13 +843,49 @@ def run_case(ctx, case):
             ctx.extra['histories_ended_early'] += 1
             return
         if kind in DERIVATIONS:
-            partner = None          # a derivation continues the chain from its result; live relatives are dropped
+            if op.get('live') and kind in LIVE_DERIVED:
+                # live derived pair: the chain continues from the result AND the parent stays alive (any earlier
+                # partner is dropped); from here on the two are judged as independent collections
+                partner, pown = cur, model
+                link, pkind, cur_is_child, genuine = 'derived', kind, True, True
+                if not model.pairs:
+                    dclass = 'parent-empty'
+                elif nmodel.pairs == model.pairs:
+                    dclass = 'keeps-everything'
+                elif not nmodel.pairs:
+                    dclass = 'keeps-nothing'
+                else:
+                    dclass = 'keeps-some'
+                ctx.count('dpair:formed/%s/%s' % (kind, dclass))
+            else:
+                if op.get('live'):
+                    _skip(ctx, 'live-flag-on-sharing-derivation-ignored')
+                partner = None      # a derivation continues the chain from its result; live relatives are dropped
+                link, pown = None, None
         cur, model = nxt, nmodel
         executed += 1
         kinds.add(kind)
         derived = derived or kind in DERIVATIONS or kind == 'reverse_view'
         ctx.count('op:' + kind)
-        if partner is not None:
+        if partner is not None and link == 'derived':
+            dpair_steps += 1
+            ctx.count('dpair:op:' + kind)
+            if kind == 'insert':
+                dpair_inserts += 1
+                if genuine:
+                    ctx.count('dpair:insert/' + pkind)
+                    ctx.count('dpair:insert-class/' + dclass)
+                    ctx.count('dpair:insert-into-' + ('child' if cur_is_child else 'parent'))
+                    oth = pown.ran()
+                    if any(t not in new_tags and t in oth for t in op['tags']):
+                        # a tag both collections hold: the insert adds to a package set the other one would see if shared
+                        ctx.count('dpair:insert-under-tag-of-both')
+                        ctx.count('dpair:insert-under-tag-of-both/' + pkind)
+                    if len(ins_pkg) > 1:
+                        ctx.count('dpair:insert-multichar-name')
+                else:
+                    ctx.count('dpair:insert-after-harness-rebuild')
+        elif partner is not None:
             pair_steps += 1
             ctx.count('pair:op:' + kind)
             if kind == 'insert':
@@ -783,13 +900,18 @@ def run_case(ctx, case):
             ctx.extra['histories_ended_early'] += 1
             break
 
+        if kind == 'read' and link == 'derived' and pkind in DOC_SHARING:
+            ctx.count('dpair:read-ends-sharing-pair-unjudged')
+            partner = None
+            link, pown = None, None
+
         # ---- monitors ---------------------------------------------------------
         k8 = list(K8_LOG)
         K8_LOG[:] = []
         absent = absent_of(model)
         # the comparison itself asks about absent names (and about names whose key a derivation may have dropped):
         # what the counting / iterating methods report must be the same before and after it, on every live object
-        objs = [('', cur)] + ([(PARTNER, partner)] if partner is not None else [])
+        objs = [('', cur)] + ([(psuffix(), partner)] if partner is not None else [])
         before = [snapshot(o) for _, o in objs]
         ctx.mon('M')
         recs = compare(cur, model, absent)
@@ -799,10 +921,15 @@ def run_case(ctx, case):
             # the live partner against the swapped reference; a read() on one object of the pair is the one
             # place where the statement is silent about the other: it may keep the old relation (the
             # implementation as written: read rebinds) or follow the new one - either is accepted
-            pmodel = prev_model.reversed() if kind == 'read' else model.reversed()
-            ctx.mon('M.pair')
+            # A derived pair has no such latitude: parent and child are separate collections, the partner keeps
+            # its own reference whatever is inserted into / read into the object operated on.
+            if link == 'derived':
+                pmodel = pown
+            else:
+                pmodel = prev_model.reversed() if kind == 'read' else model.reversed()
+            ctx.mon('M.pair' if link == 'view' else 'M.dpair')
             precs = compare(partner, pmodel, absent_of(pmodel))
-            if kind == 'read':
+            if kind == 'read' and link == 'view':
                 if not precs:
                     ctx.count('pair:read-partner-keeps')
                 else:
@@ -817,7 +944,7 @@ def run_case(ctx, case):
                     except AttributeError:
                         _k8_detach()
                         break
-                    ctx.mon('K8.pair')
+                    ctx.mon('K8.pair' if link == 'view' else 'K8.dpair')
                     if m or e:
                         pk8.append({'where': 'pair-step/' + kind, 'who': who, 'obj': id(o), 'missing': m, 'extra': e})
 
@@ -857,18 +984,21 @@ def run_case(ctx, case):
                         k8_rest.append(e)
                 # the partner shares the corrupted set: its tags_of_package / iter_packages_tags observations are
                 # restated as this object's packages_of_tag / iter_tags_packages and must show the SAME value
-                back = {}
-                mirrored = []
-                for rec in precs:
-                    mrec = mirror(rec)
-                    back[id(mrec)] = rec
-                    mirrored.append(mrec)
+                # (reverse view only: the partner of a DERIVED pair is a separate collection - nothing seen on it is
+                # ever explained by an insert into the other object)
                 first, rest = explain_known(recs, model.inv(), kind, ins_pkg, new_tags, k8_first)
-                pfirst, prest_m = explain_known(mirrored, model.inv(), kind, ins_pkg, new_tags, k8_first)
-                prest = [back[id(x)] for x in prest_m]
-                for t in sorted(pfirst):
-                    if first.get(t) != pfirst[t]:       # the partner shows the mechanism where the object itself does not
-                        prest.extend(back[id(x)] for x in mirrored if x[1] == t and not x[0].startswith('@'))
+                if link == 'view':
+                    back = {}
+                    mirrored = []
+                    for rec in precs:
+                        mrec = mirror(rec)
+                        back[id(mrec)] = rec
+                        mirrored.append(mrec)
+                    pfirst, prest_m = explain_known(mirrored, model.inv(), kind, ins_pkg, new_tags, k8_first)
+                    prest = [back[id(x)] for x in prest_m]
+                    for t in sorted(pfirst):
+                        if first.get(t) != pfirst[t]:       # the partner shows the mechanism where the object itself does not
+                            prest.extend(back[id(x)] for x in mirrored if x[1] == t and not x[0].startswith('@'))
                 dm, de = set(), set()
                 for x in k8_ins:
                     if x['obj'] == id(cur):
@@ -879,7 +1009,7 @@ def run_case(ctx, case):
                     if e['who'] == 'object':
                         ok = e['missing'] <= dm and e['extra'] <= de
                     else:
-                        ok = e['missing'] <= _swap(de) and e['extra'] <= _swap(dm)
+                        ok = link == 'view' and e['missing'] <= _swap(de) and e['extra'] <= _swap(dm)
                     if not ok:
                         pk8_rest.append(e)
             if first or k8_ins:
@@ -893,21 +1023,27 @@ def run_case(ctx, case):
                                  _fmt_k8([e for e in k8_ins if t0 in e['new_tags']] or k8_ins, 1)), prefix(i))
                 ctx.count('known-defect-at:' + kind)
                 if partner is not None:
-                    ctx.count('known-defect-with-live-partner')
+                    ctx.count('known-defect-with-live-partner' if link == 'view' else 'known-defect-with-live-derived-partner')
             if rest:
                 key = '%s-disagrees-with-reference-after-%s' % (rest[0][0], kind)
                 ctx.violation(key, 'step %d (%s): %s%s' % (i, kind, _fmt_recs(rest),
                                                            ('; ' + _fmt_k8(k8_rest)) if k8_rest else ''), prefix(i))
             elif prest:
-                key = '%s-disagrees-with-reference-after-%s%s' % (prest[0][0], kind, PARTNER)
-                ctx.violation(key, 'step %d (%s on the %s of a live db/db.reverse() pair; observed on the OTHER object): %s%s'
-                              % (i, kind, 'view' if cur_is_view else 'original', _fmt_recs(prest),
-                                 ('; ' + _fmt_k8(pk8_rest)) if pk8_rest else ''), prefix(i))
+                key = '%s-disagrees-with-reference-after-%s%s' % (prest[0][0], kind, psuffix())
+                if link == 'derived':
+                    what = ('%s on the %s of a live pair parent / parent.%s(...) [%s]; observed on the OTHER object, judged '
+                            'against its own reference relation' % (kind, 'child' if cur_is_child else 'parent', pkind, dclass))
+                else:
+                    what = '%s on the %s of a live db/db.reverse() pair; observed on the OTHER object' % (
+                        kind, 'view' if cur_is_view else 'original')
+                ctx.violation(key, 'step %d (%s): %s%s' % (i, what, _fmt_recs(prest),
+                                                           ('; ' + _fmt_k8(pk8_rest)) if pk8_rest else ''), prefix(i))
             elif k8_rest:
                 ctx.violation('indexes-not-inverse-after-%s' % k8_rest[0]['where'],
                               'step %d (%s): %s' % (i, kind, _fmt_k8(k8_rest)), prefix(i))
             elif pk8_rest:
-                ctx.violation('indexes-not-inverse-after-%s%s' % (kind, PARTNER if pk8_rest[0]['who'] == 'partner' else '/in-live-reverse-pair'),
+                ctx.violation('indexes-not-inverse-after-%s%s' % (kind, psuffix() if pk8_rest[0]['who'] == 'partner' else
+                                                                   ('/in-live-reverse-pair' if link == 'view' else '/in-live-derived-pair')),
                               'step %d (%s): on the %s: %s' % (i, kind, pk8_rest[0]['who'], _fmt_k8(pk8_rest)), prefix(i))
             if rest or prest or k8_rest or pk8_rest or not k8_usable():
                 # something other than the known mechanism (or no way to repair): the state is not trusted any more
@@ -920,6 +1056,16 @@ def run_case(ctx, case):
                 again = compare(cur, model, absent)
                 if again or any(_mismatch(cur.db, cur.rdb)):
                     raise RuntimeError('harness: rebuilt DB disagrees with the reference: %s' % _fmt_recs(again))
+            elif link == 'derived':
+                # live derived pair: the object that shows the known mechanism is replaced by a DB holding its reference
+                # relation; the other one (just judged clean against its own reference) stays as the library built it.
+                # From here on the pair proves less (one member is harness-built): counted apart, not under dpair:insert/*
+                cur = rebuild(DB, model, cur.iter_packages(), cur.iter_tags())
+                again = compare(cur, model, absent)
+                if again or any(_mismatch(cur.db, cur.rdb)):
+                    raise RuntimeError('harness: rebuilt DB disagrees with the reference: %s' % _fmt_recs(again))
+                genuine = False
+                ctx.count('dpair:rebuilt-after-known-defect')
             else:
                 # live pair: both objects are replaced - the object by a DB holding the reference relation, the partner
                 # by a fresh reverse() of it (nothing is patched inside live objects: an implementation may keep
@@ -949,9 +1095,12 @@ def run_case(ctx, case):
                 cur, model = partner, pmodel
                 cur_is_view = not cur_is_view
             partner = None
+            link, pown = None, None
 
     if pair_steps >= 2 and pair_inserts >= 1:
         ctx.count('hist:live-pair-with-insert')
+    if dpair_steps >= 2 and dpair_inserts >= 1:
+        ctx.count('hist:live-derived-pair-with-insert')
     if executed >= 3 and len(kinds) >= 2 and derived and many_to_many:
         ctx.nontrivial()
 
@@ -1075,8 +1224,11 @@ def gen_apply(model, op):
     return model.choose(op['names'])
 
 
-def gen_insert(r, model, pool, single, future=None):
-    used = set(model.pmax) | set(model.tmax) | set(pool)
+def gen_insert(r, model, pool, single, future=None, avoid=(), safe=False):
+    """avoid: further names the package must be fresh against (the other object of a live pair).
+    safe: the insert cannot take the known-defect path (a multi-character name only goes under tags that already
+    have packages), so a live derived pair stays as the library built it."""
+    used = set(model.pmax) | set(model.tmax) | set(pool) | set(avoid)
     p = None
     if future and r.random() < 0.5:
         p = future.pop(r.randrange(len(future)))      # a name an earlier query step may have asked about
@@ -1097,6 +1249,9 @@ def gen_insert(r, model, pool, single, future=None):
             t = fresh_tag(r, used | {p})
             if t is not None:
                 tags.add(t)
+    if safe and len(p) > 1:
+        cand = sorted(model.ran())
+        tags = set(r.sample(cand, min(len(cand), r.choice([1, 1, 2, 2, 3]))))
     tags.discard(p)
     tags -= set(model.pmax)       # fresh tags never collide with package names
     return {'op': 'insert', 'pkg': p, 'tags': sorted(tags)}
@@ -1320,6 +1475,145 @@ def gen_pair_history(r):
     return {'kind': 'hist', 'ops': ops}
 
 
+def _all_pred(r, names):
+    names = sorted(names)
+    return r.choice([{'k': 'true'}, {'k': 'true'}, {'k': 'in', 'names': names}, {'k': 'notin', 'names': []},
+                     {'k': 'notin', 'names': ['~absent~']}, {'k': 'len', 'n': 99}, {'k': 'crc', 'm': 2, 'r': [0, 1]}])
+
+
+def _none_pred(r, names):
+    names = sorted(names)
+    return r.choice([{'k': 'false'}, {'k': 'false'}, {'k': 'in', 'names': []}, {'k': 'notin', 'names': names},
+                     {'k': 'in', 'names': ['~absent~']}, {'k': 'len', 'n': 0}])
+
+
+def gen_live_derivation(r, model, kind=None, mode=None):
+    """A derivation of the LIVE_DERIVED group whose parent stays alive (flag 'live').  mode: the argument keeps
+    EVERYTHING (true-like predicates, a choice naming all packages), NOTHING, or is drawn like in the chain generator."""
+    kind = kind or r.choice(LIVE_DERIVED)
+    mode = mode or r.choice(['everything', 'nothing', 'some', 'some'])
+    op = {'op': kind, 'live': True}
+    if kind == 'facet_collection':
+        return op
+    if kind in ('filter_packages', 'filter_packages_copy', 'filter_tags_copy'):
+        names = model.tmax if kind == 'filter_tags_copy' else model.pmax
+        op['pred'] = (_all_pred(r, names) if mode == 'everything' else
+                      _none_pred(r, names) if mode == 'nothing' else gen_pred(r, names))
+        return op
+    if kind in ('filter_packages_tags', 'filter_packages_tags_copy'):
+        if mode == 'everything':
+            op['pred'] = r.choice([{'k': 'ntags', 'min': 0}, {'k': 'pkg', 'pred': _all_pred(r, model.pmax)},
+                                   {'k': 'hastag', 'tag': '~absent~', 'neg': True}])
+        elif mode == 'nothing':
+            op['pred'] = r.choice([{'k': 'ntags', 'min': 99}, {'k': 'pkg', 'pred': _none_pred(r, model.pmax)},
+                                   {'k': 'hastag', 'tag': '~absent~'}])
+        else:
+            op['pred'] = gen_derivation(r, model, 0.8)['pred']
+        return op
+    # choose_packages / choose_packages_copy
+    cand = sorted(model.pmax)
+    if mode == 'everything':
+        names = list(cand)
+        r.shuffle(names)
+    elif mode == 'nothing':
+        names = []
+    else:
+        names = r.sample(cand, r.randint(0, len(cand))) if cand else []
+    if names and r.random() < 0.2:
+        names.append(r.choice(names))               # a repeated name
+    if kind == 'choose_packages' and r.random() < 0.4:
+        names.insert(r.randint(0, len(names)), '~nonexistent~')
+    op['names'] = names
+    a = r.choice(['list', 'list', 'iter', 'tuple'])
+    if a != 'list':
+        op['as'] = a
+    return op
+
+
+def gen_dpair_history(r):
+    """History with a LIVE parent / derived-collection pair: a starting collection, child = parent.<derivation>(...) with
+    BOTH kept (flag 'live'; the chain continues from the child), then inserts of fresh packages / queries addressed to
+    either object ('on': 'other' = the one that is not current).  A read, a drop or a chain derivation ends the pair; a
+    further live derivation (from either object) forms a new pair with that object as the parent."""
+    single = r.random() < 0.5
+    pool = gen_pool(r)
+    future = gen_future(r, pool, single)
+    ops = []
+    model = Rel()
+    k = r.random()
+    if k < 0.06:
+        pass                                            # a DB nothing was ever put into
+    elif k < 0.14:
+        op = gen_read(r, model, single, pool, future, nlines=r.choice([1, 2, 3, 4]), max_tags=0)     # tag-less packages
+        ops.append(op)
+        model = gen_apply(model, op)
+    else:
+        op = gen_read(r, model, single, pool, future, nlines=r.choice([1, 2, 3, 3, 4, 5, 6, 8]))
+        ops.append(op)
+        model = gen_apply(model, op)
+        for _ in range(r.choice([0, 0, 0, 1, 2])):
+            kk = r.random()
+            op = gen_insert(r, model, pool, single, future) if kk < 0.4 else gen_derivation(r, model, max(kk, 0.34))
+            if op is not None:
+                ops.append(op)
+                model = gen_apply(model, op)
+    op = gen_live_derivation(r, model)
+    ops.append(op)
+    pown, model = model, gen_apply(model, op)
+    paired, pk = True, op['op']
+    n_more = r.choice([2, 3, 4, 5, 6, 7, 8, 9])
+    while n_more > 0:
+        n_more -= 1
+        other = paired and r.random() < 0.5
+        if other:
+            model, pown = pown, model                   # `model` is the reference of the object the op addresses
+        k = r.random()
+        if paired:
+            if k < 0.64:
+                op = gen_insert(r, model, pool, single, future, avoid=set(pown.pmax) | set(pown.tmax), safe=r.random() < 0.6)
+            elif k < 0.76:
+                op = gen_query(r, model, pool, future)
+            elif k < 0.85:
+                op = gen_live_derivation(r, model)
+            elif k < 0.89:
+                op = gen_read(r, model, single, pool, future)
+                if r.random() < 0.5 and pk not in DOC_SHARING:
+                    op['keep'] = 'other'
+            elif k < 0.92:
+                op = {'op': 'drop'}
+            else:
+                op = gen_derivation(r, model, r.uniform(0.34, 1.0))
+        else:
+            if k < 0.50:
+                op = gen_live_derivation(r, model)
+            elif k < 0.72:
+                op = gen_insert(r, model, pool, single, future)
+            elif k < 0.80:
+                op = gen_query(r, model, pool, future)
+            else:
+                op = gen_derivation(r, model, r.uniform(0.34, 1.0))
+        if op is None:
+            if other:
+                model, pown = pown, model
+            continue
+        if other:
+            op['on'] = 'other'
+        kind = op['op']
+        ops.append(op)
+        if op.get('live'):
+            pown, model = model, gen_apply(model, op)
+            paired, pk = True, kind
+        elif kind == 'read' and paired:
+            model = pown if op.get('keep') == 'other' else gen_apply(model, op)
+            paired, pown = False, None
+        elif kind == 'drop' or kind in DERIVATIONS:
+            model = gen_apply(model, op)
+            paired, pown = False, None
+        else:
+            model = gen_apply(model, op)
+    return {'kind': 'hist', 'ops': ops}
+
+
 def _ent(pkgs, tags=(), **kw):
     return dict({'pkgs': list(pkgs), 'tags': list(tags)}, **kw)
 
@@ -1371,6 +1665,35 @@ FIXED = [
                              {'op': 'filter_tags', 'pred': {'k': 'false'}}, {'op': 'reverse_view'},
                              {'op': 'query', 'names': ['a', 'b', 'c', 'k'], 'on': 'other'},
                              {'op': 'insert', 'pkg': 'd', 'tags': ['k']}, {'op': 'insert', 'pkg': 'e', 'tags': ['a', 'd'], 'on': 'other'}]},
+    # ---- live parent / derived-collection pairs ('live': the parent stays alive next to the result) ---------------
+    # a filter that keeps EVERYTHING; inserts under a tag both hold, into the parent and into the child
+    {'kind': 'hist', 'ops': [{'op': 'read', 'entries': [_ent(['a', 'b'], ['k', 'use::a']), _ent(['c'], ['k']), _ent(['d'])]},
+                             {'op': 'filter_packages', 'pred': {'k': 'true'}, 'live': True},
+                             {'op': 'insert', 'pkg': 'e', 'tags': ['k'], 'on': 'other'},
+                             {'op': 'insert', 'pkg': 'f', 'tags': ['k', 'use::a', 'n']},
+                             {'op': 'query', 'names': ['e', 'f', 'k', 'n'], 'on': 'other'},
+                             {'op': 'insert', 'pkg': 'lib7', 'tags': ['k']}, {'op': 'insert', 'pkg': 'g', 'tags': []}]},
+    # a choice naming all packages, then the copying tag filter keeping everything, from the parent again
+    {'kind': 'hist', 'ops': [{'op': 'read', 'entries': [_ent(['a'], ['k', 'zz']), _ent(['b2'], ['k']), _ent(['c'], ['zz'])]},
+                             {'op': 'choose_packages', 'names': ['c', 'b2', 'a', 'a'], 'live': True},
+                             {'op': 'insert', 'pkg': 'd', 'tags': ['zz']}, {'op': 'insert', 'pkg': 'e9', 'tags': ['k', 'zz'], 'on': 'other'},
+                             {'op': 'filter_tags_copy', 'pred': {'k': 'true'}, 'live': True},
+                             {'op': 'insert', 'pkg': 'f', 'tags': ['k'], 'on': 'other'}, {'op': 'insert', 'pkg': 'g', 'tags': ['k', 'zz']},
+                             {'op': 'filter_packages_tags_copy', 'pred': {'k': 'ntags', 'min': 0}, 'live': True, 'on': 'other'},
+                             {'op': 'insert', 'pkg': 'h', 'tags': ['zz']}, {'op': 'insert', 'pkg': 'i', 'tags': ['zz'], 'on': 'other'}]},
+    # filters that keep NOTHING: two empty children of the same parent, one after the other
+    {'kind': 'hist', 'ops': [{'op': 'read', 'entries': [_ent(['a', 'b'], ['k']), _ent(['c'], ['k', 'x::y'])]},
+                             {'op': 'filter_packages_copy', 'pred': {'k': 'false'}, 'live': True},
+                             {'op': 'insert', 'pkg': 'x', 'tags': ['k']}, {'op': 'insert', 'pkg': 'y', 'tags': ['k'], 'on': 'other'},
+                             {'op': 'choose_packages_copy', 'names': [], 'live': True},
+                             {'op': 'insert', 'pkg': 'z', 'tags': ['k', 'x::y'], 'on': 'other'}, {'op': 'insert', 'pkg': 'w', 'tags': ['k']},
+                             {'op': 'filter_packages_tags', 'pred': {'k': 'ntags', 'min': 99}, 'live': True},
+                             {'op': 'insert', 'pkg': 'v', 'tags': ['k']}]},
+    # facet_collection next to its parent (one-character names: the known insert defect cannot show)
+    {'kind': 'hist', 'ops': [{'op': 'read', 'entries': [_ent(['a'], ['use::a', 'use::b', 'k']), _ent(['b'], ['use::a', 'role::x'])]},
+                             {'op': 'facet_collection', 'live': True}, {'op': 'insert', 'pkg': 'c', 'tags': ['use', 'k']},
+                             {'op': 'insert', 'pkg': 'd', 'tags': ['use::a', 'k'], 'on': 'other'},
+                             {'op': 'insert', 'pkg': 'e', 'tags': ['role'], 'on': 'other'}]},
     # queries on absent names in a chain: a later insert uses the names asked about
     {'kind': 'hist', 'ops': [{'op': 'read', 'entries': [_ent(['a'], ['k']), _ent(['b'])]},
                              {'op': 'query', 'names': ['c', 'k', 'zz', 'a', '~absent~']},
@@ -1381,6 +1704,7 @@ FIXED = [
 
 
 PAIR_HISTORIES = {'quick': 20000, 'thorough': 800000}
+DPAIR_HISTORIES = {'quick': 8000, 'thorough': 320000}
 
 
 def cases(ctx):
@@ -1393,25 +1717,71 @@ def cases(ctx):
     r = ctx.rng('pair')
     for _ in range(ctx.size(PAIR_HISTORIES['quick'], PAIR_HISTORIES['thorough'])):
         yield gen_pair_history(r)
+    r = ctx.rng('dpair')
+    for _ in range(ctx.size(DPAIR_HISTORIES['quick'], DPAIR_HISTORIES['thorough'])):
+        yield gen_dpair_history(r)
 
 
-# floors: about half of what the unchanged tree measures (quick: seeds 0-3; thorough = quick x 40, validated on a thorough run).
-# The pair:* / view-start:* / q:* floors make a run that never drives the live-pair and query classes INCONCLUSIVE.
-_OPS_Q = {'op:read': 27000, 'op:insert': 52000, 'op:facet_collection': 8500, 'op:reverse': 4500, 'op:reverse_copy': 4100,
-          'op:copy': 4700, 'op:choose_packages': 5400, 'op:choose_packages_copy': 5400, 'op:filter_packages': 5200,
-          'op:filter_packages_copy': 5200, 'op:filter_packages_tags': 5200, 'op:filter_packages_tags_copy': 5200,
-          'op:filter_tags': 5200, 'op:filter_tags_copy': 5200,
-          'op:query': 14500, 'op:reverse_view': 18000, 'op:drop': 2400,
-          'pair:op:insert': 22000, 'pair:op:query': 7000, 'pair:op:read': 2800,
-          'pair:insert-on-original': 11000, 'pair:insert-on-view': 11000, 'pair:insert-multichar-name': 11500,
-          'pair:insert/both-empty': 4400, 'pair:insert/no-tags': 2200, 'pair:insert/no-packages': 1600,
-          'pair:insert/single-package': 2600, 'pair:insert/general': 6700,
-          'view-start:both-empty': 4400, 'view-start:no-tags': 2100, 'view-start:no-packages': 1500,
-          'view-start:single-package': 2700, 'view-start:general': 7200,
-          'hist:live-pair-with-insert': 8500, 'q:absent-name-queries': 175000, 'q:with-live-partner': 7000}
+# floors: about half of what the unchanged tree measures (quick: minimum over seeds 0-3, regenerated after the live
+# derived-pair workload was added; thorough = quick x 40, validated on a thorough run).  The pair:* / view-start:* / q:*
+# floors make a run that never drives the live reverse-pair and query classes INCONCLUSIVE; the dpair:* floors do the same
+# for the live parent / derived-collection pairs: per derivation kind (pair formed in each of the four argument classes,
+# inserts into genuine pairs, inserts under a tag BOTH collections hold) and per side inserted into.  Counters that exist
+# only because of the open known finding (rebuilds, known-defect-*) and pair:read-partner-* (which of two accepted
+# behaviours the implementation shows) deliberately have no floor.
+_OPS_Q = {'dpair:formed/choose_packages/keeps-everything': 250, 'dpair:formed/choose_packages/keeps-nothing': 230,
+          'dpair:formed/choose_packages/keeps-some': 150, 'dpair:formed/choose_packages/parent-empty': 230,
+          'dpair:formed/choose_packages_copy/keeps-everything': 240,
+          'dpair:formed/choose_packages_copy/keeps-nothing': 240, 'dpair:formed/choose_packages_copy/keeps-some': 150,
+          'dpair:formed/choose_packages_copy/parent-empty': 230, 'dpair:formed/facet_collection/keeps-some': 660,
+          'dpair:formed/facet_collection/parent-empty': 220, 'dpair:formed/filter_packages/keeps-everything': 280,
+          'dpair:formed/filter_packages/keeps-nothing': 250, 'dpair:formed/filter_packages/keeps-some': 130,
+          'dpair:formed/filter_packages/parent-empty': 240, 'dpair:formed/filter_packages_copy/keeps-everything': 280,
+          'dpair:formed/filter_packages_copy/keeps-nothing': 250, 'dpair:formed/filter_packages_copy/keeps-some': 120,
+          'dpair:formed/filter_packages_copy/parent-empty': 220,
+          'dpair:formed/filter_packages_tags/keeps-everything': 270,
+          'dpair:formed/filter_packages_tags/keeps-nothing': 210, 'dpair:formed/filter_packages_tags/keeps-some': 160,
+          'dpair:formed/filter_packages_tags/parent-empty': 220,
+          'dpair:formed/filter_packages_tags_copy/keeps-everything': 270,
+          'dpair:formed/filter_packages_tags_copy/keeps-nothing': 220,
+          'dpair:formed/filter_packages_tags_copy/keeps-some': 150,
+          'dpair:formed/filter_packages_tags_copy/parent-empty': 230,
+          'dpair:formed/filter_tags_copy/keeps-everything': 240, 'dpair:formed/filter_tags_copy/keeps-nothing': 250,
+          'dpair:formed/filter_tags_copy/keeps-some': 160, 'dpair:formed/filter_tags_copy/parent-empty': 220,
+          'dpair:insert-class/keeps-everything': 2800, 'dpair:insert-class/keeps-nothing': 2300,
+          'dpair:insert-class/keeps-some': 2100, 'dpair:insert-class/parent-empty': 2500,
+          'dpair:insert-into-child': 4900, 'dpair:insert-into-parent': 4900, 'dpair:insert-multichar-name': 4000,
+          'dpair:insert-under-tag-of-both': 3400, 'dpair:insert-under-tag-of-both/choose_packages': 460,
+          'dpair:insert-under-tag-of-both/choose_packages_copy': 470,
+          'dpair:insert-under-tag-of-both/filter_packages': 450,
+          'dpair:insert-under-tag-of-both/filter_packages_copy': 470,
+          'dpair:insert-under-tag-of-both/filter_packages_tags': 460,
+          'dpair:insert-under-tag-of-both/filter_packages_tags_copy': 470,
+          'dpair:insert-under-tag-of-both/filter_tags_copy': 410, 'dpair:insert/choose_packages': 1200,
+          'dpair:insert/choose_packages_copy': 1200, 'dpair:insert/facet_collection': 890,
+          'dpair:insert/filter_packages': 1200, 'dpair:insert/filter_packages_copy': 1200,
+          'dpair:insert/filter_packages_tags': 1200, 'dpair:insert/filter_packages_tags_copy': 1200,
+          'dpair:insert/filter_tags_copy': 1200, 'dpair:op:choose_packages': 900, 'dpair:op:choose_packages_copy': 910,
+          'dpair:op:facet_collection': 940, 'dpair:op:filter_packages': 930, 'dpair:op:filter_packages_copy': 890,
+          'dpair:op:filter_packages_tags': 880, 'dpair:op:filter_packages_tags_copy': 900,
+          'dpair:op:filter_tags_copy': 920, 'dpair:op:insert': 11500, 'dpair:op:query': 2100, 'dpair:op:read': 710,
+          'hist:live-derived-pair-with-insert': 3600, 'hist:live-pair-with-insert': 8500, 'op:choose_packages': 6600,
+          'op:choose_packages_copy': 6600, 'op:copy': 5000, 'op:drop': 3000, 'op:facet_collection': 10000,
+          'op:filter_packages': 6600, 'op:filter_packages_copy': 6700, 'op:filter_packages_tags': 6500,
+          'op:filter_packages_tags_copy': 6400, 'op:filter_tags': 5700, 'op:filter_tags_copy': 6700, 'op:insert': 65500,
+          'op:query': 17000, 'op:read': 31500, 'op:reverse': 4700, 'op:reverse_copy': 4300, 'op:reverse_view': 18000,
+          'pair:insert-multichar-name': 11500, 'pair:insert-on-original': 11000, 'pair:insert-on-view': 11000,
+          'pair:insert/both-empty': 4400, 'pair:insert/general': 6700, 'pair:insert/no-packages': 1600,
+          'pair:insert/no-tags': 2200, 'pair:insert/single-package': 2600, 'pair:op:insert': 22500,
+          'pair:op:query': 7000, 'pair:op:read': 2800, 'pair:op:reverse_view': 18000, 'q:absent-name-queries': 207500,
+          'q:present-name-queries': 31000, 'q:with-live-derived-partner': 2100, 'q:with-live-partner': 7000,
+          'view-start:both-empty': 4300, 'view-start:general': 7200, 'view-start:no-packages': 1500,
+          'view-start:no-tags': 2100, 'view-start:single-package': 2700}
 _OPS_T = dict((k, v * 40) for k, v in _OPS_Q.items())
-FLOORS = {'quick': {'nontrivial': 16000, 'monitors': {'M': 180000, 'M.pair': 50000, 'M.query': 250000}, 'counters': _OPS_Q},
-          'thorough': {'nontrivial': 640000, 'monitors': {'M': 7200000, 'M.pair': 2000000, 'M.query': 10000000}, 'counters': _OPS_T}}
+FLOORS = {'quick': {'nontrivial': 19500, 'monitors': {'M': 210000, 'M.pair': 50000, 'M.dpair': 22000, 'M.query': 310000},
+                    'counters': _OPS_Q},
+          'thorough': {'nontrivial': 780000, 'monitors': {'M': 8400000, 'M.pair': 2000000, 'M.dpair': 880000, 'M.query': 12400000},
+                       'counters': _OPS_T}}
 
 
 def conclusive(tier, counters, monitor_evals, extra):
@@ -1422,23 +1792,28 @@ def conclusive(tier, counters, monitor_evals, extra):
             return 'contract monitor K8 is attached but was never evaluated'
         if monitor_evals.get('K8.pair', 0) == 0:
             return 'contract monitor K8 is attached but was never evaluated on a live db / db.reverse() pair'
+        if monitor_evals.get('K8.dpair', 0) == 0:
+            return 'contract monitor K8 is attached but was never evaluated on a live parent / derived-collection pair'
     return None
 
 
 LEVEL_TEXT = ('Runtime monitoring: seeded histories (read / insert / 12 derivation kinds / query steps, <= ~12 operations) are executed '
-              'on the live debtags.DB, as chains (each derivation replaces the DB) and with a LIVE db / db.reverse() pair (both objects '
-              'kept, mutated and queried, formed on general and on degenerate collections); after every step all query methods of every '
+              'on the live debtags.DB, as chains (each derivation replaces the DB), with a LIVE db / db.reverse() pair (both objects '
+              'kept, mutated and queried, formed on general and on degenerate collections) and with a LIVE parent / derived-collection '
+              'pair for the eight derivations that build the child\'s tag index afresh (inserts of fresh packages into either, arguments '
+              'keeping everything / nothing / some); after every step all query methods of every '
               'live object are compared with an independent reference relation (set of pairs) transformed by the same operation, the '
               'counting / iterating results are snapshotted around all query calls (queries must not change them), and a contract at the '
               'hook (K8: db and rdb describe the same pairs) is evaluated after every insert/read, on every returned DB (including the '
-              'intermediate collection facet_collection builds) and on both objects of a live pair.  Held-on-observed, not a proof: '
+              'intermediate collection facet_collection builds) and on both objects of every live pair.  Held-on-observed, not a proof: '
               'reach is the generated histories.')
 LEVEL_NOTE = ('Trusted: CPython, vp.models.tagrel.Rel, the generator\'s rendering of tag lines. Out of the oracle: aliasing between live '
-              'relatives other than the db / db.reverse() pair (results of the sharing filter_*/choose_* variants are never mutated next to '
-              'a live parent), what the other object of a pair shows after a read() beyond "old relation or swapped new relation", '
+              'relatives other than the db / db.reverse() pair and the parent / child pairs of the eight derivations that do not share the '
+              'sets an insert adds to (results of filter_tags, copy and reverse_copy - which share those sets on the unchanged tree - are '
+              'never mutated next to a live parent), what the other object of a pair shows after a read() beyond "old relation or swapped new relation", '
               'duplicate/re-inserted package names, blank input lines, the facet name of a tag without "::", whether keys with empty sets '
               'survive a derivation, iteration order.')
 TECHNIQUE = ('runtime monitoring: boundary oracle M (reference relation vs. all DB query methods after every step of a seeded operation '
-             'history, on the object operated on and on its live reverse() view; before/after snapshots around query calls) decides; K8 '
+             'history, on the object operated on and on its live reverse() view or live parent / derived collection; before/after snapshots around query calls) decides; K8 '
              'representation contract (db/rdb mutually inverse) attached to DB.insert/read and every DB-returning method, and evaluated on '
-             'both objects of a live pair, localises')
+             'both objects of every live pair, localises')
